@@ -450,7 +450,11 @@ func levelB(r *ev.Run, rng *rand.Rand) {
 							dup(resp.Id, fmt.Sprintf("AllocID r%d", round))
 						}
 					} else {
-						region := m.Srv.GetRaftCluster().GetRegion(2)
+						rc := m.Srv.GetRaftCluster()
+						if rc == nil { // not leader at the moment
+							continue
+						}
+						region := rc.GetRegion(2)
 						if region == nil {
 							continue
 						}
